@@ -523,12 +523,23 @@ def inline_helpers(j, known=None):
             if cb["kind"] == "closure" and cb["path"].startswith(p + "::{"):
                 extra += expand(cb)
         bodies += extra
-    for b in list(bodies):
-        if b["path"] in cand or any(b["path"].startswith(p + "::{") for p in cand):
-            continue
-        if not b.get("file", "").startswith("src/"):
-            continue
-        bodies += expand(b)
+    work = list(bodies)
+    done_ = set()
+    rounds_ = 0
+    while work and rounds_ < 6:
+        rounds_ += 1
+        fresh = []
+        for b in work:
+            if id(b) in done_:
+                continue
+            done_.add(id(b))
+            if b["path"] in cand or any(b["path"].startswith(p + "::{") for p in cand):
+                continue
+            if not b.get("file", "").startswith("src/"):
+                continue
+            fresh += expand(b)
+        bodies += fresh
+        work = fresh        # closures copied while splicing are bodies in their own right: they are normalised as well
     gone = set(cand)
     j["bodies"] = [b for b in bodies if b["path"] not in gone and not any(b["path"].startswith(p + "::{") for p in gone)]
     return sorted(gone)
